@@ -23,26 +23,27 @@ def injectedLet? : Node → Option (List Nat)
   | _ => none
 
 /-- children that are evaluated in a later activation than the enclosing block's own code -/
-def deferredKid (n : Node) (i : Nat) : Bool :=
+def deferredKid (n : Node) (i : Nat) : Option String :=
   match n with
   | .other k _ names _ =>
     -- function-like nodes: their parameters run at call time
-    (names.getD i "" == "params" && names.contains "body") ||
+    if names.getD i "" == "params" && names.contains "body" then some "function-parameter"
     -- instance field initialisers run at construction time
-    ((k == "ClassProperty" || k == "PrivateProperty") && names.getD i "" == "value" &&
-      match n.field? "isStatic" with
+    else if (k == "ClassProperty" || k == "PrivateProperty") && names.getD i "" == "value" &&
+      (match n.field? "isStatic" with
       | some (.atom "true") => false
-      | _ => true)
-  | .arrow ps _ _ _ => i < ps.length
-  | _ => false
+      | _ => true) then some "field-initialiser"
+    else none
+  | .arrow ps _ _ _ => if i < ps.length then some "arrow-parameter" else none
+  | _ => none
 
 /-- temporaries occurring in the own region of a block (nested blocks excluded), with a flag telling
     whether the occurrence is in a deferred position -/
-def ownTemps (deferred : Bool) (n : Node) : List (Nat × Bool) :=
+def ownTemps (deferred : Option String) (n : Node) : List (Nat × Option String) :=
   if isBlock n then []
   else
     (match tempOf? n with | some t => [(t, deferred)] | none => []) ++
-    ((n.kids.zipIdx).attach.map fun x => ownTemps (deferred || deferredKid n x.1.2) x.1.1).flatten
+    ((n.kids.zipIdx).attach.map fun x => ownTemps (deferred.orElse fun _ => deferredKid n x.1.2) x.1.1).flatten
 termination_by sizeOf n
 decreasing_by
   have h := x.2
@@ -69,16 +70,18 @@ def blockIssues (b : Node) : List ScopeIssue :=
   match b with
   | .block stmts sp =>
     let (body, declared) := dropInjectedLet stmts
-    let uses := (body.map (ownTemps false)).flatten
+    let uses := (body.map (ownTemps none)).flatten
     (uses.filterMap fun u => if declared.contains u.1 then none else some ⟨"temp-not-declared-in-its-block", sp, u.1⟩) ++
     (declared.filterMap fun t => if uses.any (·.1 == t) then none else some ⟨"declared-temp-unused", sp, t⟩) ++
-    (uses.filterMap fun u => if u.2 then some ⟨"temp-in-deferred-position-of-declaring-block", sp, u.1⟩ else none) ++
+    (uses.filterMap fun u => match u.2 with
+      | some kind => some ⟨"temp-in-deferred-position-of-declaring-block/" ++ kind, sp, u.1⟩
+      | none => none) ++
     (if declared.eraseDups.length != declared.length then [⟨"temp-declared-twice", sp, 0⟩] else [])
   | _ => []
 
 /-- temporaries outside any block -/
 def topLevelTemps (out : Node) : List ScopeIssue :=
-  (ownTemps false out).map fun u => ⟨"temp-outside-any-block", Span.dummy, u.1⟩
+  (ownTemps none out).map fun u => ⟨"temp-outside-any-block", Span.dummy, u.1⟩
 
 def scopeIssues (out : Node) : List ScopeIssue :=
   topLevelTemps out ++ ((Node.collect isBlock out).map blockIssues).flatten
